@@ -112,11 +112,17 @@ def check_script(script, rec, do_valgrind, instrument=False):
     wit = {"script": script, "instrument": instrument}
     if instrument:
         rec.count("programs_generated_with_profiling_instrumentation")
+    from vf.runner import jhash
+    heap = jhash(script)[-1] in "01234567"
+    wit["heap_state"] = heap
+    if heap:
+        # half of the programs keep their state object in dirty heap memory (nothing is nullified by accident)
+        rec.count("programs_with_state_object_in_dirty_heap_memory")
     try:
         with case_alarm(240):
             obs = ftn.execute(script, env={"ASAN_OPTIONS": "detect_leaks=1:halt_on_error=1:abort_on_error=0:"
                                                            "exitcode=23:atexit=1:print_stats=1"},
-                              instrument=instrument)
+                              instrument=instrument, heap_state=heap)
     except CaseTimeout:
         rec.timeout()
         return None
